@@ -309,17 +309,14 @@ Lemma lookup_shape s1 s2 ident : same_shape s1 s2 ->
   res_row (lookup_unit s1 ident) = res_row (lookup_unit s2 ident).
 Proof.
   intros (Hn & Hs & Hc). unfold lookup_unit.
-  pose proof (find_shape (fun sh => String.eqb (snd (fst sh)) ident || String.eqb (snd (fst (fst sh))) ident)
+  pose proof (find_shape (fun sh => String.eqb (snd (fst (fst sh))) ident || String.eqb (snd (fst sh)) ident)
                 (rs_cash s1) (rs_cash s2) Hc) as F1.
   pose proof (find_shape (fun sh => String.eqb (fst (fst (fst sh))) ident)
                 (rs_cash s1) (rs_cash s2) Hc) as F2.
   cbn [ushape fst snd] in F1, F2.
-  assert (E1 : forall l, find (fun u => String.eqb (cu_name u) ident || String.eqb (cu_plural u) ident) l
-                 = find (fun u => String.eqb (cu_plural u) ident || String.eqb (cu_name u) ident) l).
-  { intros l. apply find_ext. intros u. apply orb_comm. }
-  rewrite !E1. rewrite <- Hn, <- Hs.
-  destruct (find (fun u => String.eqb (cu_plural u) ident || String.eqb (cu_name u) ident) (rs_cash s1)) as [u1|];
-  destruct (find (fun u => String.eqb (cu_plural u) ident || String.eqb (cu_name u) ident) (rs_cash s2)) as [u2|];
+  rewrite <- Hn, <- Hs.
+  destruct (find (fun u => String.eqb (cu_name u) ident || String.eqb (cu_plural u) ident) (rs_cash s1)) as [u1|];
+  destruct (find (fun u => String.eqb (cu_name u) ident || String.eqb (cu_plural u) ident) (rs_cash s2)) as [u2|];
     try contradiction.
   - cbn. injection F1 as _ _ _ ->. reflexivity.
   - destruct (mem ident (rs_names s1)); [reflexivity|].
@@ -355,3 +352,213 @@ Proof.
   destruct (conversion_rate pn ps t b2 st2 Hp R2 x a b ua2 ub2 La2 Lb2) as (_ & _ & r2 & C2 & E2).
   rewrite C1, C2, E1, E2, Ea, Eb. reflexivity.
 Qed.
+
+(* ------------------------------------------------------------------ the dictionaries stay functions *)
+Lemma mem_In s l : mem s l = true <-> In s l.
+Proof.
+  unfold mem. rewrite existsb_exists. split.
+  - intros (x & I & E). apply String.eqb_eq in E. subst. exact I.
+  - intros I. exists s. split; [exact I|apply String.eqb_refl].
+Qed.
+Lemma mem_false_notin s l : mem s l = false -> ~ In s l.
+Proof. intros H I. apply mem_In in I. congruence. Qed.
+
+Lemma nodupb_NoDup l : nodupb l = true -> NoDup l.
+Proof.
+  induction l as [|x l IH]; cbn; [constructor|].
+  intros H. apply andb_prop in H as [H1 H2]. constructor; [|exact (IH H2)].
+  apply mem_false_notin. destruct (mem x l); [discriminate|reflexivity].
+Qed.
+
+Definition keys_ok (st : regstate) : Prop :=
+  NoDup (rs_names st) /\ NoDup (rs_syms st) /\
+  Forall (fun u => In (cu_name u) (rs_names st) /\ In (cu_plural u) (rs_names st) /\ In (cu_sym u) (rs_syms st))
+         (rs_cash st).
+
+Lemma register_unit_keys st sym name m row st' :
+  keys_ok st -> register_unit st sym name m row = POk st' -> keys_ok st'.
+Proof.
+  intros (Nn & Ns & Fc). unfold register_unit.
+  destruct (mem name (rs_names st)) eqn:M1; [discriminate|].
+  destruct (mem sym (rs_syms st)) eqn:M2; [discriminate|].
+  destruct (mem (name ++ "s") (name :: rs_names st)) eqn:M3; [discriminate|].
+  intros [= <-]. unfold keys_ok. cbn [rs_names rs_syms rs_cash].
+  apply mem_false_notin in M1, M2, M3.
+  split; [|split].
+  - constructor; [exact M3|]. constructor; assumption.
+  - constructor; assumption.
+  - apply Forall_app. split.
+    + eapply Forall_impl; [|exact Fc]. cbn. intros u (A & B & C).
+      split; [right; right; exact A|]. split; [right; right; exact B|right; exact C].
+    + constructor; [|constructor]. cbn. auto.
+Qed.
+
+Lemma register_currency_keys rb st c st' :
+  keys_ok st -> register_currency rb st c = POk st' -> keys_ok st'.
+Proof.
+  intros K. unfold register_currency.
+  destruct (Qeq_bool (c_rate c) 0); [discriminate|].
+  destruct (mem (c_name c) (rs_names st) && mem (c_sym c) (rs_syms st)); [intros [= <-]; exact K|].
+  set (sym := if mem (c_sym c) (rs_syms st) then c_name c else c_sym c).
+  set (name := match assoc sym special_names with
+               | Some n => n
+               | None => if mem (c_name c) (rs_names st) then c_sym c else c_name c
+               end).
+  destruct (taken st sym name); [intros [= <-]; exact K|].
+  destruct (register_unit st sym name (rb / c_rate c) c) as [st1|] eqn:R1; [|discriminate].
+  cbn [pbind]. pose proof (register_unit_keys _ _ _ _ _ _ K R1) as K1.
+  destruct (assoc sym special_currency_symbols) as [ss|]; [|intros [= <-]; exact K1].
+  destruct (taken st1 ss ss); [intros [= <-]; exact K1|].
+  intros R2. exact (register_unit_keys _ _ _ _ _ _ K1 R2).
+Qed.
+
+Lemma register_loop_keys rb : forall l st st',
+  keys_ok st -> register_loop rb st l = POk st' -> keys_ok st'.
+Proof.
+  induction l as [|c l IH]; intros st st' K; cbn [register_loop].
+  - intros [= <-]. exact K.
+  - destruct (register_currency rb st c) as [m|] eqn:R; [|discriminate]. cbn [pbind].
+    apply IH. exact (register_currency_keys _ _ _ _ K R).
+Qed.
+
+(* NAME_TO_UNIT and SYMBOL_TO_UNIT never get a key twice: the list model of the two dicts is sound *)
+Theorem registry_keys_unique pn ps t base st :
+  NoDup pn -> NoDup ps -> register_currencies pn ps t base = POk st -> keys_ok st.
+Proof.
+  intros Nn Ns R. destruct (register_currencies_inv _ _ _ _ _ R) as (b & _ & _ & L).
+  refine (register_loop_keys _ _ _ _ _ L). unfold keys_ok. cbn. auto.
+Qed.
+
+(* ------------------------------------------------------------------ export / parse *)
+Lemma append_assoc (a b c : string) : ((a ++ b) ++ c = a ++ (b ++ c))%string.
+Proof. induction a as [|x a IH]; cbn; [reflexivity|]. rewrite IH. reflexivity. Qed.
+
+Lemma contains_app ch a b : contains ch (a ++ b) = contains ch a || contains ch b.
+Proof. induction a as [|x a IH]; cbn; [reflexivity|]. rewrite IH. apply orb_assoc. Qed.
+
+Lemma split_on_nosep sep s : contains sep s = false -> split_on sep s = [s].
+Proof.
+  induction s as [|c s IH]; cbn; [reflexivity|].
+  intros H. apply orb_false_elim in H as [H1 H2]. rewrite H1, (IH H2). reflexivity.
+Qed.
+
+Lemma split_on_app sep a b :
+  contains sep a = false -> split_on sep (a ++ String sep b) = a :: split_on sep b.
+Proof.
+  induction a as [|c a IH]; cbn.
+  - intros _. rewrite Ascii.eqb_refl. reflexivity.
+  - intros H. apply orb_false_elim in H as [H1 H2]. rewrite H1, (IH H2). reflexivity.
+Qed.
+
+Lemma lstrip_head : forall s c r, lstrip s = String c r -> is_space c = false.
+Proof.
+  induction s as [|a s IH]; cbn; [discriminate|].
+  intros c r. destruct (is_space a) eqn:E; [apply IH|].
+  intros [= <- <-]. exact E.
+Qed.
+
+Lemma lstrip_contains ch : forall s, is_space ch = false -> contains ch s = true -> contains ch (lstrip s) = true.
+Proof.
+  intros s Hs. induction s as [|a s IH]; cbn; [discriminate|].
+  destruct (is_space a) eqn:E.
+  - destruct (Ascii.eqb a ch) eqn:Ea.
+    + apply Ascii.eqb_eq in Ea. subst. congruence.
+    + cbn. exact IH.
+  - cbn. auto.
+Qed.
+
+Lemma nonspace_not_blank ch s : is_space ch = false -> contains ch s = true -> is_blank s = false.
+Proof.
+  intros Hs Hc. unfold is_blank, strip.
+  pose proof (lstrip_contains ch s Hs Hc) as H.
+  destruct (lstrip s) as [|c r] eqn:L; [discriminate|].
+  pose proof (lstrip_head _ _ _ L) as Hc0. cbn [rstrip].
+  destruct (rstrip r); [rewrite Hc0|]; reflexivity.
+Qed.
+
+Lemma unl_nocr : forall s, contains ch_cr s = false -> universal_newlines s = s.
+Proof.
+  induction s as [|c s IH]; cbn; [reflexivity|].
+  intros H. apply orb_false_elim in H as [H1 H2]. rewrite H1, (IH H2). reflexivity.
+Qed.
+
+Definition clean (s : string) : Prop :=
+  contains ch_comma s = false /\ contains ch_nl s = false /\ contains ch_cr s = false.
+Definition body (repr : Q -> string) (c : cur) : string :=
+  c_sym c ++ String ch_comma (c_name c ++ String ch_comma (repr (c_rate c))).
+
+Lemma export_line_body repr c rest :
+  (export_line repr c ++ rest = body repr c ++ String ch_nl rest)%string.
+Proof.
+  unfold export_line, body.
+  repeat (rewrite append_assoc; cbn [append]). reflexivity.
+Qed.
+
+Section ExportImport.
+  Variables (repr : Q -> string) (pf : pyfloat_t).
+  Hypothesis float_repr : forall q, pf (repr q) = Some q.
+  Hypothesis repr_clean : forall q, clean (repr q).
+
+  Definition row_ok (c : cur) : Prop := clean (c_sym c) /\ clean (c_name c) /\ 0 < c_rate c.
+
+  Lemma body_no (ch : ascii) c :
+    Ascii.eqb ch_comma ch = false ->
+    contains ch (c_sym c) = false -> contains ch (c_name c) = false -> contains ch (repr (c_rate c)) = false ->
+    contains ch (body repr c) = false.
+  Proof.
+    intros Hc H1 H2 H3. unfold body. rewrite contains_app, H1. cbn [contains orb].
+    rewrite Hc, contains_app, H2. cbn [contains orb]. rewrite Hc, H3. reflexivity.
+  Qed.
+
+  Lemma body_fields c : row_ok c ->
+    split_on ch_comma (body repr c) = [c_sym c; c_name c; repr (c_rate c)].
+  Proof.
+    intros ((S1 & _) & (N1 & _) & _). unfold body.
+    rewrite (split_on_app _ _ _ S1), (split_on_app _ _ _ N1).
+    rewrite split_on_nosep; [reflexivity|]. apply repr_clean.
+  Qed.
+
+  Lemma body_not_blank c : is_blank (body repr c) = false.
+  Proof.
+    apply (nonspace_not_blank ch_comma); [reflexivity|].
+    unfold body. rewrite contains_app. cbn [contains]. rewrite Ascii.eqb_refl. cbn. apply orb_true_r.
+  Qed.
+
+  Lemma export_lines : forall t, Forall row_ok t ->
+    split_on ch_nl (export_text repr t) = (map (body repr) t ++ [EmptyString])%list.
+  Proof.
+    induction t as [|c t IH]; intros F; cbn [export_text fold_right map app]; [reflexivity|].
+    inversion F as [|? ? Hc Ft]; subst.
+    rewrite export_line_body. fold (export_text repr t).
+    rewrite split_on_app, (IH Ft); [reflexivity|].
+    destruct Hc as ((_ & S2 & _) & (_ & N2 & _) & _). destruct (repr_clean (c_rate c)) as (_ & R2 & _).
+    apply body_no; auto.
+  Qed.
+
+  Lemma parse_bodies : forall t, Forall row_ok t ->
+    parse_rows pf (map (body repr) t ++ [EmptyString])%list = PTable t.
+  Proof.
+    induction t as [|c t IH]; intros F; cbn [map app parse_rows].
+    - reflexivity.
+    - inversion F as [|? ? Hc Ft]; subst.
+      rewrite body_not_blank, (body_fields c Hc), float_repr.
+      destruct Hc as (_ & _ & P). rewrite (pos_Qle_bool _ P), (IH Ft).
+      destruct c as [[s n] r]. reflexivity.
+  Qed.
+
+  (* a table written by the export is parsed back to exactly that table *)
+  Theorem export_parse t : Forall row_ok t ->
+    parse_currency_data pf (export_text repr t) = PTable t.
+  Proof. intros F. unfold parse_currency_data. rewrite (export_lines t F). exact (parse_bodies t F). Qed.
+
+  (* and the text survives text-mode reading unchanged *)
+  Theorem export_text_mode t : Forall row_ok t ->
+    universal_newlines (export_text repr t) = export_text repr t.
+  Proof.
+    intros F. apply unl_nocr. induction t as [|c t IH]; cbn [export_text fold_right]; [reflexivity|].
+    inversion F as [|? ? Hc Ft]; subst. rewrite export_line_body. fold (export_text repr t).
+    rewrite contains_app. cbn [contains]. rewrite (IH Ft).
+    destruct Hc as ((_ & _ & S3) & (_ & _ & N3) & _). destruct (repr_clean (c_rate c)) as (_ & _ & R3).
+    rewrite (body_no ch_cr c); auto.
+  Qed.
+End ExportImport.
